@@ -275,7 +275,12 @@ func runCase(rq *request) M {
 	ast0 := astOf(verifNode(e))
 	ev["ast"] = ast0
 	if rq.Ast != nil {
+		// the text was printed from a tree TLC enumerated; when the real parser builds another
+		// tree the outcome is judged against the enumerated one
 		ev["parse_same"] = canon(ast0) == canon(rq.Ast)
+		if canon(ast0) != canon(rq.Ast) {
+			ev["want_ast"] = rq.Ast
+		}
 	}
 	str0, _ := safeString(e)
 
